@@ -44,7 +44,16 @@ def split(c):
 def has_own_match(ogp, q, marker):
     """the function body itself contains a match / if-let on a variant of the enum (not merely inherited conditions)"""
     import json
-    return marker.strip(':') in json.dumps(ogp.crate.fns[q]['body'])
+    if marker.strip(':') in json.dumps(ogp.crate.fns[q]['body']):
+        return True
+    # .. or in a non-recursive helper it calls directly (`control_flow(statement)` classifying the statement into a strategy object / a list of
+    # nested blocks): the walker is still the function that acts on the outcome
+    rec = getattr(ogp.crate, 'scc', {})
+    for caller, callee, _ in getattr(ogp.it, 'inline_calls', []):
+        if caller == q and callee in ogp.crate.fns and callee != q and len(rec.get(callee, ())) <= 1 and not ogp.crate.same_recursive_component(callee, callee):
+            if marker.strip(':') in json.dumps(ogp.crate.fns[callee].get('body')):
+                return True
+    return False
 
 
 def holds_block(ty, sch, depth=0):
